@@ -14,6 +14,7 @@ def showAct : Act → String
   | .attempt => "attempt" | .onConnect => "on_connect" | .onDisconnect e => s!"on_disconnect:{b e}"
   | .onConnectError k => s!"on_connect_error:{showErr k}" | .zcAdd => "zc_add" | .zcRemove => "zc_remove"
   | .arm d => s!"arm:{d}" | .startRet => "start_ret" | .stopRet => "stop_ret" | .resetTries => "reset_tries"
+  | .failCounted k => s!"fail_counted:{showErr k}"
 
 def showKind : Kind → String
   | .connect => "connect" | .disc _ => "disc" | .startCall => "start" | .stopCall => "stop"
@@ -27,6 +28,7 @@ def parseEv : List String → Option Ev
   | ["finishDone", r] => (parseRes r).map .finishDone
   | ["sessionEnd", e] => some (.sessionEnd (e == "1"))
   | ["zc", m] => some (.zc (m == "1"))
+  | ["cbDone"] => some .cbDone
   | ["timerDue"] => some .timerDue
   | ["wait", d] => d.toNat?.map .wait
   | ["pop"] => some .pop
@@ -53,6 +55,7 @@ def showSt (s : St) : String :=
 def rcStep (s : St) (ws : List String) : St × String :=
   match ws with
   | ["rc.new", n] => (init (n == "1"), "ok")
+  | ["rc.new", n, c, e, d] => (init (n == "1") (c == "1") (e == "1") (d == "1"), "ok")
   | "rc.ev" :: rest =>
     match parseEv rest with
     | some e =>
